@@ -3,19 +3,19 @@
 // `sh -c` store / retrieve commands.
 //
 //	H <outs> <fault>            HTTP: Store, then a later Retrieve into an emptied output directory
-//	                            fault: - | s (the server drops the connection while reading the PUT) | r (the GET body is cut)
-//	C <n|a> <rfail> <outs>      command cache: n = `cat > $KEY` (the form of the repository's tests), a = `cat > tmp && mv tmp $KEY`;
-//	                            rfail 1 = the retrieve command prints the archive and exits 1
+//	                            fault: - | s (the server drops the connection while reading the PUT) | r<pct> (the GET body is cut to pct%, 1..75)
+//	C <kind> <rfail> <outs>     command cache: n = `cat > $KEY` (the form of the repository's tests), a = `cat > tmp && mv tmp $KEY`,
+//	                            nf<bytes> / af<bytes> = the same destinations, but the command stops after <bytes> and exits 1
+//	                            (`head -c <bytes> > …; exit 1`); rfail 1 = the retrieve command prints the archive and exits 1
 //	outs = output;output;…  output = item,item,… (walk order; the first item is the output itself)
 //	item = <o|d|l|v|u>:<hexname>:<size>   o file, d directory, l symlink, v vanished (not there; only as the output itself), u unreadable (mode 000;
 //	                            when the harness runs as root the Store runs in a re-executed child with uid nobody)
 //
 // The line that goes to the Lean side is `h …` (same fields) or `c <n|a> <rfail> <outs> <stored>` where <stored> is what the
-// store command left under the key, measured by reading it as a raw tar: - | <complete entries>.<last one cut 0|1>.
+// store command left under the key, measured by reading it as a raw tar: - | <complete entries>.<last one cut 0|1>.<end marker 0|1>.
 package main
 
 import (
-	"archive/tar"
 	"bytes"
 	"encoding/json"
 	"fmt"
@@ -138,6 +138,35 @@ func shortBodyReached(outs [][]item) bool {
 	return false
 }
 
+// cutPct parses the retrieve fault r<pct>: 0 when it is not one.
+func cutPct(s string) int {
+	if !strings.HasPrefix(s, "r") {
+		return 0
+	}
+	p, err := strconv.Atoi(s[1:])
+	if err != nil || p < 1 || p > 75 {
+		return 0
+	}
+	return p
+}
+
+// cmdKind parses n | a | nf<bytes> | af<bytes>.
+func cmdKind(s string) (atomic bool, failAfter int, ok bool) {
+	switch {
+	case s == "n":
+		return false, -1, true
+	case s == "a":
+		return true, -1, true
+	case strings.HasPrefix(s, "nf") || strings.HasPrefix(s, "af"):
+		n, err := strconv.Atoi(s[2:])
+		if err != nil || n < 0 {
+			return false, 0, false
+		}
+		return s[0] == 'a', n, true
+	}
+	return false, 0, false
+}
+
 func hasKind(outs [][]item, k byte) bool {
 	for _, o := range outs {
 		for _, it := range o {
@@ -218,12 +247,12 @@ type server struct {
 	mu       sync.Mutex
 	store    map[string][]byte
 	dropPut  map[string]bool // drop the connection while reading the PUT of this path
-	cutGet   map[string]bool // send only part of the GET body of this path
+	cutGet   map[string]int  // send only this percentage of the GET body of this path (0 = all)
 	srv      *httptest.Server
 }
 
 func newServer() *server {
-	s := &server{store: map[string][]byte{}, dropPut: map[string]bool{}, cutGet: map[string]bool{}}
+	s := &server{store: map[string][]byte{}, dropPut: map[string]bool{}, cutGet: map[string]int{}}
 	s.srv = httptest.NewServer(http.HandlerFunc(func(w http.ResponseWriter, r *http.Request) {
 		p := r.URL.Path
 		switch r.Method {
@@ -260,10 +289,10 @@ func newServer() *server {
 				w.WriteHeader(http.StatusNotFound)
 				return
 			}
-			if cut {
+			if cut > 0 {
 				// promise everything, send at most three quarters (never only the unread tail), then drop the connection
 				w.Header().Set("Content-Length", strconv.Itoa(len(b)))
-				w.Write(b[:len(b)*3/5])
+				w.Write(b[:len(b)*cut/100])
 				if hj, ok := w.(http.Hijacker); ok {
 					if c, buf, err := hj.Hijack(); err == nil {
 						buf.Flush()
@@ -323,27 +352,50 @@ func showHit(m map[string]string, outs [][]item) string {
 	return "hit/" + strings.Join(ns, ",")
 }
 
-// measure reads what the store command left as a raw tar: complete entries and whether the last one is cut.
+// measure reads what the store command left, block by block as a raw tar: complete entries (PAX / GNU long-name helper
+// records are part of the entry they precede), whether the last one is cut, and whether tar's end marker (two zero
+// blocks) follows the entries.
 func measure(path string) string {
-	f, err := os.Open(path)
+	b, err := os.ReadFile(path)
 	if err != nil {
 		return "-"
 	}
-	defer f.Close()
-	tr := tar.NewReader(f)
-	n := 0
+	zero := make([]byte, 512)
+	n, off, pendingMeta := 0, 0, false
 	for {
-		_, err := tr.Next()
-		if err == io.EOF {
-			return fmt.Sprintf("%d.0", n)
-		} else if err != nil {
-			// a torn header counts as a cut entry
-			return fmt.Sprintf("%d.1", n+1)
+		if off+512 > len(b) {
+			if off < len(b) || pendingMeta {
+				return fmt.Sprintf("%d.1.0", n+1) // a torn header, or a helper record without its entry
+			}
+			return fmt.Sprintf("%d.0.0", n)
 		}
-		if _, err := io.Copy(io.Discard, tr); err != nil {
-			return fmt.Sprintf("%d.1", n+1)
+		hdr := b[off : off+512]
+		if bytes.Equal(hdr, zero) {
+			if off+1024 <= len(b) && bytes.Equal(b[off+512:off+1024], zero) {
+				return fmt.Sprintf("%d.0.1", n)
+			}
+			return fmt.Sprintf("%d.0.0", n)
 		}
-		n++
+		size, err := strconv.ParseInt(strings.TrimRight(strings.TrimSpace(string(hdr[124:136])), "\x00 "), 8, 64)
+		if err != nil {
+			return fmt.Sprintf("%d.1.0", n+1)
+		}
+		next := off + 512 + int((size+511)/512*512)
+		if off+512+int(size) > len(b) {
+			return fmt.Sprintf("%d.1.0", n+1) // the body is short
+		}
+		switch hdr[156] {
+		case 'x', 'g', 'L', 'K':
+			pendingMeta = true
+		default:
+			pendingMeta = false
+			n++
+		}
+		off = min(next, len(b))
+		if next > len(b) {
+			// the body is there but its padding is not: the entry counts, nothing can follow
+			return fmt.Sprintf("%d.0.0", n)
+		}
 	}
 }
 
@@ -352,6 +404,9 @@ type ctx struct {
 	root string
 	srv  *server
 	n    int
+	// commit-on-success store commands after a read fault: how often the command committed all the same
+	atomicFaults, atomicCommits int
+	atomicExample               string
 }
 
 // judge is the property on the real outcome: after any fault a later Retrieve must not be a hit, unless it restores
@@ -412,7 +467,7 @@ func (c *ctx) runOp(op string) {
 		os.RemoveAll(gen)
 	}()
 	switch {
-	case f[0] == "H" && len(f) == 3 && (f[2] == "-" || f[2] == "s" || f[2] == "r"):
+	case f[0] == "H" && len(f) == 3 && (f[2] == "-" || f[2] == "s" || cutPct(f[2]) > 0):
 		outs, ok := parseOuts(f[1])
 		if !ok || len(outs) == 0 {
 			c.r.Emit(op, "bad-op", false)
@@ -423,7 +478,7 @@ func (c *ctx) runOp(op string) {
 		path := "/" + pkg + "/" + keyHex
 		c.srv.mu.Lock()
 		c.srv.dropPut[path] = f[2] == "s"
-		c.srv.cutGet[path] = f[2] == "r"
+		c.srv.cutGet[path] = cutPct(f[2])
 		c.srv.mu.Unlock()
 		sp := childSpec{Root: c.root, Pkg: pkg, Files: roots(outs), URL: base}
 		if err := runStore(sp, hasKind(outs, 'u')); err != nil {
@@ -451,16 +506,17 @@ func (c *ctx) runOp(op string) {
 		}
 		if f[2] == "s" {
 			class = "http-store-committed-despite-transport-fault"
-		} else if f[2] == "r" {
+		} else if cutPct(f[2]) > 0 {
 			class = "hit-after-retrieve-transport-fault"
 		}
 		c.judge(op, outs, fault, hit, got, class)
-		c.r.Count("http:fault=" + f[2])
+		c.r.Count("http:fault=" + f[2][:1])
 		c.r.Count("http:later=" + strings.SplitN(res, "/", 2)[0])
 		c.r.Emit("h "+f[1]+" "+f[2], fmt.Sprintf("committed=%v later=%s", committed, res), fault)
-	case f[0] == "C" && len(f) == 4 && (f[1] == "n" || f[1] == "a") && (f[2] == "0" || f[2] == "1"):
+	case f[0] == "C" && len(f) == 4 && (f[2] == "0" || f[2] == "1"):
+		atomic, failAfter, okk := cmdKind(f[1])
 		outs, ok := parseOuts(f[3])
-		if !ok || len(outs) == 0 {
+		if !ok || !okk || len(outs) == 0 {
 			c.r.Emit(op, "bad-op", false)
 			return
 		}
@@ -468,9 +524,19 @@ func (c *ctx) runOp(op string) {
 		sdir := filepath.Join(c.root, "cmdstore", pkg)
 		os.MkdirAll(sdir, 0o777)
 		os.Chmod(sdir, 0o777)
-		storeCmd := "cat > " + sdir + "/$CACHE_KEY"
-		if f[1] == "a" {
-			storeCmd = "cat > " + sdir + "/$CACHE_KEY.tmp && mv " + sdir + "/$CACHE_KEY.tmp " + sdir + "/$CACHE_KEY"
+		reader := "cat"
+		if failAfter >= 0 {
+			reader = "head -c " + strconv.Itoa(failAfter)
+		}
+		storeCmd := reader + " > " + sdir + "/$CACHE_KEY"
+		if atomic {
+			storeCmd = reader + " > " + sdir + "/$CACHE_KEY.tmp && "
+			if failAfter >= 0 {
+				storeCmd += "false && "
+			}
+			storeCmd += "mv " + sdir + "/$CACHE_KEY.tmp " + sdir + "/$CACHE_KEY"
+		} else if failAfter >= 0 {
+			storeCmd += "; exit 1"
 		}
 		retrCmd := "cat " + sdir + "/$CACHE_KEY"
 		if f[2] == "1" {
@@ -482,6 +548,13 @@ func (c *ctx) runOp(op string) {
 			os.Exit(4)
 		}
 		stored := measure(filepath.Join(sdir, keyHex))
+		if atomic && failAfter < 0 && (hasKind(outs, 'v') || hasKind(outs, 'u')) {
+			c.atomicFaults++
+			if stored != "-" {
+				c.atomicCommits++
+				c.atomicExample = op
+			}
+		}
 		os.RemoveAll(gen)
 		os.MkdirAll(gen, 0o775)
 		hit := newCache(sp).Retrieve(tg, key, roots(outs))
@@ -490,16 +563,20 @@ func (c *ctx) runOp(op string) {
 		if hit {
 			res = showHit(got, outs)
 		}
-		fault := hasKind(outs, 'v') || hasKind(outs, 'u') || f[2] == "1"
+		fault := hasKind(outs, 'v') || hasKind(outs, 'u') || f[2] == "1" || failAfter >= 0
 		class := "cmd-naive-store-keeps-partial-archive-after-read-error"
 		switch {
 		case f[2] == "1":
 			class = "hit-after-retrieve-command-failure"
-		case f[1] == "a":
+		case atomic && failAfter >= 0:
+			class = "cmd-atomic-store-committed-although-command-failed"
+		case atomic:
 			class = "cmd-atomic-store-committed-after-cancel"
+		case failAfter >= 0 && !hasKind(outs, 'v') && !hasKind(outs, 'u'):
+			class = "cmd-naive-store-keeps-partial-archive-after-command-failure"
 		}
 		c.judge(op, outs, fault, hit, got, class)
-		c.r.Count("cmd:" + f[1] + ":stored=" + map[bool]string{true: "nothing", false: "something"}[stored == "-"])
+		c.r.Count("cmd:" + f[1][:min(len(f[1]), 2)] + ":stored=" + map[bool]string{true: "nothing", false: "something"}[stored == "-"])
 		c.r.Count("cmd:later=" + strings.SplitN(res, "/", 2)[0])
 		os.RemoveAll(sdir)
 		c.r.Emit("c "+f[1]+" "+f[2]+" "+f[3]+" "+stored, "later="+res, fault)
@@ -547,6 +624,14 @@ func main() {
 	}
 	c := &ctx{r: r, root: root, srv: newServer()}
 	defer c.srv.srv.Close()
+	defer func() {
+		// The known finding is a RACE that the kill wins almost always (2-3 losses in ~50 at load average > 100).  When the
+		// command commits after MOST read faults, it is not being killed in time at all any more: a different defect.
+		if c.atomicFaults >= 10 && c.atomicCommits*2 > c.atomicFaults {
+			c.r.OracleFail("cmd-store-not-cancelled-after-read-error", c.atomicExample,
+				fmt.Sprintf("a commit-on-success store command committed after %d of %d read faults", c.atomicCommits, c.atomicFaults))
+		}
+	}()
 	if replay != nil {
 		for _, op := range replay {
 			c.runOp(op)
